@@ -226,3 +226,43 @@ func NewID(hi, lo uint64) bin.Bin128 {
 	binary.BigEndian.PutUint64(id[1][:], lo)
 	return id
 }
+
+// DeepMessage builds, iteratively, a message nested depth levels (one field per level); with lists
+// the levels alternate between messages and lists.
+func DeepMessage(depth int, lists bool) []byte {
+	varint := func(b []byte, v uint64) []byte {
+		switch {
+		case v <= 0xfc:
+			return append(b, byte(v))
+		case v <= 0xffff:
+			return append(b, byte(v>>8), byte(v), 0xfd)
+		default:
+			return append(b, byte(v>>24), byte(v>>16), byte(v>>8), byte(v), 0xfe)
+		}
+	}
+	cur := make([]byte, 0, depth*18+16)
+	cur = append(cur, 0, 0, 80)
+	for i := 0; i < depth; i++ {
+		n := len(cur)
+		msg := !lists || i%2 == 1 || i == depth-1
+		switch {
+		case msg && n <= 65535:
+			cur = append(cur, 1, byte(n>>8), byte(n))
+			cur = varint(varint(cur, uint64(n)), 3)
+			cur = append(cur, 80)
+		case msg:
+			cur = append(cur, 0, 1, byte(n>>24), byte(n>>16), byte(n>>8), byte(n))
+			cur = varint(varint(cur, uint64(n)), 6)
+			cur = append(cur, 81)
+		case n <= 65535:
+			cur = append(cur, byte(n>>8), byte(n))
+			cur = varint(varint(cur, uint64(n)), 2)
+			cur = append(cur, 70)
+		default:
+			cur = append(cur, byte(n>>24), byte(n>>16), byte(n>>8), byte(n))
+			cur = varint(varint(cur, uint64(n)), 4)
+			cur = append(cur, 71)
+		}
+	}
+	return cur
+}
